@@ -85,7 +85,7 @@ def main(argv=None):
         budget = mod.BUDGET[tier]
         nshards = a.shards or budget.get("shards", 8)
         nshards = max(1, min(nshards, budget["cases"]))
-        timeout = budget.get("wall_s", 600 if tier == "quick" else 3000) + 300
+        timeout = budget.get("wall_s", 3000 if tier == "quick" else 3600) + 300
         with concurrent.futures.ThreadPoolExecutor(max_workers=min(nshards, 16)) as ex:
             results = list(ex.map(lambda s: run_shard(prop, tier, seed, s, nshards, timeout), range(nshards)))
 
